@@ -150,7 +150,7 @@ pub fn limb_key(i: u64) -> Vec<u8> {
 /// Scalars k for which k*G1 / k*G2 (generators) has a compressed encoding whose coordinate begins with an EXTREME
 /// 32-bit word: the field modulus' own leading word 0x1a0111ea ("max": the coordinate is within 2^-32 of p) or
 /// zero ("min": the coordinate is below 2^349). About one point in 2^31 is of either kind; these were found once
-/// by an exhaustive walk over k = 1 .. 6.4e9 (G1) / 2.4e9 (G2) with a stand-alone tool (DESIGN.md §4, C15) and are
+/// by an exhaustive walk over k = 1 .. 6.4e9 (G1) / 2.4e9 (G2) with a stand-alone tool (/verif/tools/edgepts) and are
 /// re-verified at start-up by `edge_scalars_selfcheck`. Word-wise range checks on point encodings meet their
 /// boundary here and nowhere that uniform sampling reaches.
 pub const EDGE_SCALARS_G1: [(u64, bool); 9] = [
@@ -164,7 +164,14 @@ pub const EDGE_SCALARS_G1: [(u64, bool); 9] = [
     (2606223813, false),
     (3415688923, false),
 ];
-pub const EDGE_SCALARS_G2: [(u64, bool); 0] = [];
+pub const EDGE_SCALARS_G2: [(u64, bool); 6] = [
+    (1875757969, true),  // second half (c0) begins with the modulus word
+    (2342951145, true),  // first half (c1) begins with the modulus word
+    (1595847491, false), // c0 begins with a zero word
+    (1186592499, false), // c0
+    (2129562560, false), // c1
+    (968194929, false),  // c1
+];
 /// the edge scalars whose multiple of the generator of the group with `point_len`-byte encodings is extreme
 pub fn edge_scalars(point_len: usize) -> Vec<u64> {
     if point_len == 48 {
